@@ -1165,6 +1165,96 @@ async def peer_deletes(ctx: Ctx, cfg: str, how: str, cmds: list[bytes]) \
         env.cleanup()
 
 
+PEERSEL_CMDS = [b'APPEND BoxB', b'APPEND BoxA', b'COPY 1 BoxB', b'COPY 1 BoxA',
+                b'UID COPY 1:* BoxB', b'STATUS BoxB (MESSAGES RECENT)',
+                b'STATUS BoxA (MESSAGES UIDNEXT)', b'NOOP', b'CHECK',
+                b'LIST "" *', b'SUBSCRIBE BoxA', b'CREATE PeerNew',
+                b'SEARCH ALL', b'FETCH 1 (FLAGS)', b'IDLE']
+
+
+async def peer_selected(ctx: Ctx, cfg: str, first: bytes, peer_box: bytes,
+                        peer_first: bool, cmds: list[bytes]) -> None:
+    """Another connection of the same user holds a mailbox selected
+    read-write while this connection, in the Selected state, runs commands
+    that are not SELECT/EXAMINE/CLOSE/UNSELECT -- several of them name the
+    peer's mailbox.  None of them may change which mailbox this connection
+    has selected or whether it is read-only (RFC 3501 section 3: only those
+    four commands leave or enter a selection)."""
+    env = await build_env(cfg)
+    try:
+        await provision(env)
+        a = Conn(1, Sched())
+        a.start(env.imap)
+        await a.greeting()
+        await _must(a, b'LOGIN u1 pw1')
+        b = Conn(2, Sched())
+        b.start(env.imap)
+        await b.greeting()
+        await _must(b, b'LOGIN u1 pw1')
+        if peer_first:
+            await _must(b, b'SELECT ' + peer_box)
+            await _must(a, first)
+        else:
+            await _must(a, first)
+            await _must(b, b'SELECT ' + peer_box)
+        want_box = first.split(b' ')[1].decode()
+        want_ro = first.startswith(b'EXAMINE')
+        g0 = read_glass(a)
+        fetch = b'FETCH 1 (BODY.PEEK[HEADER.FIELDS (X-VF-BOX)])'
+        for line in cmds:
+            if a.dead:
+                break
+            if line.startswith(b'APPEND '):
+                box = line.split(b' ')[1]
+                line = line + b' ' + _lit(marker_msg(box[-1:]))
+            follow = (b'DONE',) if line == b'IDLE' else ()
+            r = await send(a, line, follow)
+            word = line.split(b' ')[0].decode()
+            if word == 'UID':
+                word = 'UID ' + line.split(b' ')[1].decode()
+            what = '%s after %s while another connection has %s selected ' \
+                'read-write [%s]' % (line[:40].decode('latin-1'),
+                                     first.decode(), peer_box.decode(), cfg)
+            if r is None or a.dead:
+                ctx.aborted = ctx.aborted or 'peersel-connection-ended'
+                break
+            ctx.count('commands_beside_peer_selection')
+            rf = await send(a, fetch)
+            marker = _fetch_marker(rf) if rf is not None and rf.ok else None
+            got_box = {'A': 'BoxA', 'B': 'BoxB'}.get(marker or '', None)
+            if rf is None or not rf.ok:
+                ctx.report('selection-lost-by-non-select-command:' + word,
+                           what + ': FETCH 1 afterwards answered %r'
+                           % (rf.tagged.raw[:80] if rf is not None
+                              and rf.tagged else None))
+                break
+            if got_box != want_box:
+                ctx.report('selection-changed-by-non-select-command:' + word,
+                           what + ': message 1 is now the marker of %s, the '
+                           'connection had selected %s' % (got_box, want_box))
+                break
+            rs = await send(a, b'STORE 1 +FLAGS.SILENT (\\Flagged)')
+            c = _cond(rs)
+            if (c == 'OK') == want_ro and c in ('OK', 'NO'):
+                ctx.report('mode-changed-by-non-select-command:' + word,
+                           what + ': STORE afterwards answered %s, the '
+                           'selection was read-%s' % (
+                               c, 'only' if want_ro else 'write'))
+                break
+            g = read_glass(a)
+            if g0 is not None and g is not None:
+                ctx.count('peersel_glass_comparisons')
+                if g['mailbox_id'] != g0['mailbox_id'] or \
+                        g['readonly'] != g0['readonly']:
+                    ctx.report('selection-object-changed-by-non-select-'
+                               'command:' + word, what + ': server-side '
+                               'selection %r -> %r' % (g0, g))
+                    break
+        await _settle(a)
+    finally:
+        env.cleanup()
+
+
 async def lock_times_out(ctx: Ctx, cfg: str, first: bytes, second: bytes) \
         -> None:
     """maildir: a foreign process holds the uidlist lock of BoxB for longer
@@ -1365,7 +1455,8 @@ class C05(Check):
     floors = {'steps_judged': 8000, 'states_revealed': 8000,
               'refusals_checked_no_effect': 5000, 'probe_runs': 8000,
               'state_symbol_pairs': 600, 'glass_comparisons': 6000,
-              'logouts_checked': 60}
+              'logouts_checked': 60,
+              'commands_beside_peer_selection': 120}
     time_cap = {'quick': 150.0, 'thorough': 1500.0}
 
     def cases(self, tier: str, seed: int) -> Iterable[dict[str, Any]]:
@@ -1443,6 +1534,20 @@ class C05(Check):
                     out.append({'kind': 'peer', 'config': cfg, 'how': how,
                                 'cmds': [c.decode('latin-1')
                                          for c in [first] + rest]})
+        # another connection holds a mailbox selected read-write beside this
+        # connection's own selection
+        for cfg in (['dict', 'maildir'] if quick else list(CONFIGS)):
+            for first in ('SELECT BoxA', 'EXAMINE BoxA', 'EXAMINE BoxB',
+                          'SELECT BoxB'):
+                for peer_box in ('BoxB', 'BoxA'):
+                    for peer_first in (True, False):
+                        for rep in range(1 if quick else 4):
+                            cmds = prng.sample(PEERSEL_CMDS, 6)
+                            out.append({'kind': 'peersel', 'config': cfg,
+                                        'first': first, 'peer_box': peer_box,
+                                        'peer_first': peer_first,
+                                        'cmds': [c.decode('latin-1')
+                                                 for c in cmds]})
         # short sequences first (a mechanism's first witness is then likely
         # a short one); shards are strided, so every worker gets the same mix
         rng.shuffle(out)
@@ -1489,6 +1594,13 @@ class C05(Check):
                 await peer_deletes(ctx, cfg, spec['how'],
                                    [c.encode('latin-1')
                                     for c in spec['cmds']])
+            elif kind == 'peersel':
+                await peer_selected(ctx, cfg,
+                                    spec['first'].encode('latin-1'),
+                                    spec['peer_box'].encode('latin-1'),
+                                    spec['peer_first'],
+                                    [c.encode('latin-1')
+                                     for c in spec['cmds']])
             elif kind in ('random', 'script-seq'):
                 seq = list(spec['symbols'])
                 await explore(ctx, seq, False, 1, 'sequence_steps_run')
@@ -1513,7 +1625,8 @@ class C05(Check):
                            ).hexdigest()[:16]
         return {'violations': ctx.violations, 'counters': ctx.counters,
                 'sig': sig,
-                'nontrivial': ctx.counters.get('states_revealed', 0) > 0,
+                'nontrivial': ctx.counters.get('states_revealed', 0) > 0
+                or ctx.counters.get('commands_beside_peer_selection', 0) > 0,
                 'sample': {'spec': spec,
                            'pairs': sorted(ctx.pairs)[:8],
                            'counters': dict(ctx.counters)},
